@@ -47,6 +47,11 @@ def _den1(ctx, st, e, env):
     return SV(TReal, z3.If(rel, z3.If(HOLDS(e.t, env.t), z3.RealVal(1), z3.RealVal(0)), DEN(e.t, env.t)))
 
 
+def DEN1(e, env):
+    rel = core.uf("sp.is_Relational", S, z3.BoolSort())(e)
+    return z3.If(rel, z3.If(HOLDS(e, env), z3.RealVal(1), z3.RealVal(0)), DEN(e, env))
+
+
 def _name_of(t):
     return t.decl().name() if z3.is_app(t) else ""
 
@@ -128,6 +133,8 @@ def _sympify(ctx, st, v, **kw):
         return SV(TSym, z3.If(v.t, SP_TRUE.t, SP_FALSE.t))
     if isinstance(v, SV) and v.ty.kind == "u" and v.ty.name == "Node":
         return SV(TSym, core.uf("sp.sympify_token", v.ty.sort(), S)(v.t))
+    if isinstance(v, SV) and v.ty == TName:
+        return SpApply(v)  # sympify("Gt") is the sympy class of that name
     return sym(v)
 
 
@@ -183,16 +190,19 @@ _BIN_MEANING = {
     "+": "den(result, env) == den1(fst, env) + den1(snd, env)",
     "-": "den(result, env) == den1(fst, env) - den1(snd, env)",
     "*": "den(result, env) == den1(fst, env) * den1(snd, env)",
-    "/": "implies(den1(snd, env) != 0, den(result, env) * den1(snd, env) == den1(fst, env))",
+    "/": "den(result, env) == den1(fst, env) * rpow(den1(snd, env), -1)",
     "**": "den(result, env) == rpow(den1(fst, env), den1(snd, env))",
 }
 
 
 @registry.spec("binop_meaning")
 def _binop_meaning(ctx, st, op, result, fst, snd, env):
-    if isinstance(op, SV):
-        raise Unsupported("symbolic operator")
     s2 = I.State({"result": result, "fst": fst, "snd": snd, "env": env}, st.pc, st.decisions, st.assumed)
+    if isinstance(op, SV):
+        parts = [z3.Implies(op.t == core.name_lit(o), V.zbool(ctx.ev_contract_expr(m, s2))) for o, m in _BIN_MEANING.items()]
+        return SV(TBool, z3.And(*parts))
+    if op not in _BIN_MEANING:
+        return True
     return ctx.ev_contract_expr(_BIN_MEANING[op], s2)
 
 
@@ -200,14 +210,14 @@ contract(
     X + "binary_op", params={"op": "PyStr", "fst": "Sym", "snd": "Sym"}, ret="Sym", ghost={"env": "Env"},
     enum_params={"op": ["+", "-", "*", "/", "**", "%", "//"]},
     raises={"RuntimeError": "op not in ['+', '-', '*', '/', '**']"},
-    ensures={"meaning": "binop_meaning(op, result, fst, snd, env)"},
+    ensures={"meaning": "binop_meaning(op, result, fst, snd, env)", "arithmetic_result": "not result.is_Relational"},
     properties=("C01",),
 )
 contract(
     X + "unary_op", params={"op": "PyStr", "arg": "Sym"}, ret="Sym", ghost={"env": "Env"},
     enum_params={"op": ["-", "+", "~"]},
     raises={"RuntimeError": "op not in ['+', '-']"},
-    ensures={"meaning": "den(result, env) == (den(arg, env) if op == '+' else -den(arg, env))"},
+    ensures={"meaning": "ite(op == '+', result == arg, den(result, env) == -den(arg, env) and not result.is_Relational)"},
     properties=("C01",),
 )
 
@@ -219,3 +229,298 @@ c.ghost = {"env": "Env"}
 c.ensures["meaning"] = ("implies(not sp_is_true(cond) and not sp_is_false(cond), "
                         "den(result, env) == ite(holds(cond, env), den(true_value, env), den(false_value, env)))")
 c.properties = ("C01", "C06", "C16")
+
+# ---- lark trees ---------------------------------------------------------------------------------------
+from pyvc.registry import class_model  # noqa: E402
+
+class_model("Node", fields={"data": "Name", "children": "Seq[Node]", "meta": "Meta", "value": "Name", "type": "Name"},
+            classes={"lark.Tree": [], "lark.lexer.Token": [], "lark.tree.Tree": []})
+class_model("Meta", fields={"line": "Int"}, classes={})
+TNode = core.TU("Node")
+_text = core.uf("Node.text", TNode.sort(), TName.sort())
+V.STR_VIEW["Node"] = lambda sv: SV(TName, _text(sv.t))
+registry.EXTERNALS["str:Node"] = lambda ctx, st, v: SV(TName, _text(v.t))
+core.COERCIONS[(repr(TNode), repr(TName))] = lambda v: SV(TName, _text(v.t))
+TOKVAL = core.uf("Node.number_value", TNode.sort(), R)  # the real number a SCIENTIFIC_NUMBER token spells
+core.TERM_AXIOMS["sp.sympify_token"] = lambda app: []
+_old_den_axioms = core.TERM_AXIOMS["den"]
+
+
+def _den_axioms2(app):
+    e, env = app.children()
+    n = _name_of(e)
+    if n == "sp.sympify_token":
+        return [app == TOKVAL(e.children()[0])]  # ASSUMED: sympify(token) denotes the number the token spells
+    if n == "sp.apply":
+        f, args = e.children()
+        a0, a1 = DEN1(args[0], env), DEN1(args[1], env)
+        return [z3.Implies(z3.Length(args) == 1, app == core.uf("fsem1", TName.sort(), R, R)(f, a0)),
+                z3.Implies(z3.Length(args) == 2, app == core.uf("fsem2", TName.sort(), R, R, R)(f, a0, a1))]
+    return _old_den_axioms(app)
+
+
+core.TERM_AXIOMS["den"] = _den_axioms2
+PI = z3.Const("sp.pi", S)
+
+
+class SpApply:
+    def __init__(self, fname: SV):
+        self.fname = fname
+
+
+def _sp_apply_call(ctx, st, f, args):
+    seq = None
+    for a in args:
+        if isinstance(a, I.StarArgs):
+            it = a.it
+            s_ = it.seq if isinstance(it, V.SeqIter) else ctx.materialize(it)
+        else:
+            s_ = lift([sym(a)], TSeq(TSym))
+        seq = s_ if seq is None else SV(s_.ty, z3.Concat(seq.t, s_.t))
+    if seq is None:
+        seq = SV(TSeq(TSym), z3.Empty(TSeq(TSym).sort()))
+    ctx.assumed_used.add("sympy: getattr(sympy, name)(*args) denotes fsem(name)(den args) (arity <= 2)")
+    return SV(TSym, core.uf("sp.apply", TName.sort(), TSeq(TSym).sort(), S)(f.fname.t, seq.t))
+
+
+_orig_call = I.Interp.call
+
+
+def _call(self, f, args, kwargs, st, node=None):
+    if isinstance(f, SpApply):
+        return _sp_apply_call(self, st, f, args)
+    return _orig_call(self, f, args, kwargs, st, node)
+
+
+I.Interp.call = _call
+
+
+@external("__getattr_symbolic__")
+def _getattr_symbolic(ctx, st, obj, attr, *default):
+    if isinstance(obj, I.ModuleRef) and obj.dotted == "sympy":
+        return SpApply(lift(attr, TName))
+    raise Unsupported("getattr with symbolic name")
+
+
+_orig_getattr = I.Interp.call_builtin
+
+
+def _call_builtin(self, name, args, kwargs, st, node):
+    if name == "getattr" and isinstance(args[0], I.ModuleRef) and args[0].dotted == "sympy":
+        return SpApply(lift(args[1], TName))  # uniform: every sympy function looked up by name is sp.apply(name, .)
+    return _orig_getattr(self, name, args, kwargs, st, node)
+
+
+I.Interp.call_builtin = _call_builtin
+
+# reference meaning T(tree, env) written from docs/grammar.md ------------------------------------------------
+
+defspec("apply_op", {"op": "Name", "a": "Real", "b": "Real"}, "Real", """
+def apply_op(op, a, b):
+    if op == "+":
+        return a + b
+    if op == "-":
+        return a - b
+    if op == "*":
+        return a * b
+    if op == "/":
+        return a * rpow(b, -1)
+    return rpow(a, b)
+""")
+
+defspec("T", {"tree": "Node", "symbols": "Dict[Name,Sym]", "env": "Env"}, "Real", """
+def T(tree, symbols, env):
+    if tree.data == "expression" or tree.data == "term":
+        return foldT(tree.children, symbols, env, len(tree.children))
+    if tree.data == "factor":
+        if tree.children[0] == "-":
+            return -den(expr2symbols_of(tree.children[1], symbols), env)
+        return T(tree.children[1], symbols, env)
+    if tree.data == "power":
+        return rpow(T(tree.children[0], symbols, env), T(tree.children[1], symbols, env))
+    if tree.data == "variable":
+        return den1(symbols[str(tree.children[0])], env)
+    if tree.data == "scientific":
+        return token_value(tree.children[0])
+    if tree.data == "constant":
+        return den_pi(env)
+    if tree.data == "func":
+        return Tfunc(tree, symbols, env)
+    return den1(expr2symbols_of(tree, symbols), env)
+""")
+
+
+@registry.spec("token_value")
+def _token_value(ctx, st, n):
+    return SV(TReal, TOKVAL(n.t))
+
+
+@registry.spec("den_pi")
+def _den_pi(ctx, st, env):
+    return SV(TReal, DEN(PI, env.t))
+
+
+defspec("Tfunc", {"tree": "Node", "symbols": "Dict[Name,Sym]", "env": "Env"}, "Real", """
+def Tfunc(tree, symbols, env):
+    f = fname_of(tree.children[0])
+    if len(tree.children) == 2:
+        return fsem1(f, T(tree.children[1], symbols, env))
+    if len(tree.children) == 3:
+        return fsem2(f, T(tree.children[1], symbols, env), T(tree.children[2], symbols, env))
+    return den1(expr2symbols_of(tree, symbols), env)
+""")
+defspec("Tfunc_other", {"tree": "Node", "symbols": "Dict[Name,Sym]", "env": "Env"}, "Real")
+defspec("Tlogical", {"tree": "Node", "symbols": "Dict[Name,Sym]", "env": "Env"}, "Real")
+
+
+@registry.spec("fname_of")
+def _fname_of(ctx, st, tok):
+    """'abs' is sympy's 'Abs'; every other function name is the sympy name"""
+    t = _text(tok.t)
+    return SV(TName, z3.If(t == core.name_lit("abs"), core.name_lit("Abs"), t))
+
+
+@registry.spec("fsem1")
+def _fsem1(ctx, st, f, a):
+    return SV(TReal, core.uf("fsem1", TName.sort(), R, R)(lift(f, TName).t, lift(a, TReal).t))
+
+
+@registry.spec("fsem2")
+def _fsem2(ctx, st, f, a, b):
+    return SV(TReal, core.uf("fsem2", TName.sort(), R, R, R)(lift(f, TName).t, lift(a, TReal).t, lift(b, TReal).t))
+
+
+# operands of + - * / ** go through relational_to_piecewise: T1 is the 1/0 reading of a relational sub-tree
+defspec("T1", {"tree": "Node", "symbols": "Dict[Name,Sym]", "env": "Env"}, "Real", """
+def T1(tree, symbols, env):
+    return T(tree, symbols, env)
+""")
+
+defspec("foldT", {"ch": "Seq[Node]", "symbols": "Dict[Name,Sym]", "env": "Env", "j": "Int"}, "Real", """
+def foldT(ch, symbols, env, j):
+    if j <= 1:
+        return T(ch[0], symbols, env)
+    return apply_op(str(ch[j - 2]), foldT(ch, symbols, env, j - 2), T(ch[j - 1], symbols, env))
+""")
+
+contract(
+    X + "build_expression.expr2symbols",
+    params={"tree": "Node"}, captured={"symbols_": "Dict[Name,Sym]"}, ret="Sym", ghost={"env": "Env"},
+    requires=["wf_tree(tree)"],
+    raises={"MissingSymbolError": "maybe", "InvalidTreeError": "maybe", "RuntimeError": "maybe", "TypeError": "maybe"},
+    ensures={"denotes_reference_meaning":
+             "implies(tree.data != 'logicalfunc' and not (tree.data == 'func' and len(tree.children) > 3), "
+             "den1(result, env) == T(tree, symbols_, env))",
+             "conditional_selects_second_or_third_argument":
+             "implies(tree.data == 'logicalfunc' and tree.children[0] == 'Conditional' and not sp_is_true(C1) and not sp_is_false(C1), "
+             "den(result, env) == ite(holds(C1, env), den(C2, env), den(C3, env)))"},
+    where={"C1": "expr2symbols_of(tree.children[1], symbols_)", "C2": "expr2symbols_of(tree.children[2], symbols_)",
+           "C3": "expr2symbols_of(tree.children[3], symbols_)"},
+    loops={0: {"invariant": {"left_fold": "den1(fst, env) == foldT(tree.children, symbols_, env, 1 + 2 * k)"}}},
+    properties=("C01",),
+)
+
+
+FUNCNAMES = ["cos", "tan", "sin", "acos", "atan", "asin", "log", "ln", "sqrt", "exp", "Abs", "abs", "floor", "Mod"]
+WF_TREE = core.uf("wf_tree", TNode.sort(), z3.BoolSort())
+
+
+@registry.spec("wf_tree")
+def _wf_tree(ctx, st, tree):
+    return SV(TBool, WF_TREE(tree.t))
+
+
+@registry.spec("expr2symbols_of")
+def _e2s_of(ctx, st, tree, symbols):
+    f = core.uf(X + "build_expression.expr2symbols", TNode.sort(), symbols.ty.sort(), S)
+    return SV(TSym, f(tree.t, symbols.t))
+
+
+def _wf_axioms(app):
+    """shape facts the grammar guarantees (ASSUMED from ode.lark; bounded conformance: replay/oracles/c01),
+    and well-formedness of sub-trees"""
+    (t,) = app.children()
+    out = [z3.Implies(app, _wf_shape(t))]
+    parent = _parent_of(t)
+    if parent is not None:
+        out.append(z3.Implies(WF_TREE(parent), app))
+    return out
+
+
+def _parent_of(t):
+    """t is an element (nth / slice element) of Node.children(p): return p"""
+    seen = 0
+    cur = t
+    if not z3.is_app(cur) or _name_of(cur) == "Node.children":
+        return None
+    stack = [cur]
+    while stack and seen < 50:
+        x = stack.pop()
+        seen += 1
+        if not z3.is_app(x):
+            continue
+        if _name_of(x) == "Node.children":
+            return x.children()[0]
+        if x.decl().kind() in (z3.Z3_OP_SEQ_NTH, z3.Z3_OP_SEQ_EXTRACT, z3.Z3_OP_ITE) or _name_of(x) in ("seq.nth_i", "seq.nth_u", "seq.nth"):
+            ch = x.children()
+            stack.extend(ch[1:3] if x.decl().kind() == z3.Z3_OP_ITE else ch[:1])
+    return None
+
+
+core.TERM_AXIOMS["wf_tree"] = _wf_axioms
+
+
+def _nonrel(app):
+    return [z3.Not(core.uf("sp.is_Relational", S, z3.BoolSort())(app))]
+
+
+for _n in ("sp.Add", "sp.Mul", "sp.Pow", "sp.Sub", "sp.Div", "sp.Neg", "sp.Integer", "sp.Float", "sp.exp", "sp.Abs",
+           "sp.sympify_token", "sp.Piecewise2"):
+    _prev = core.TERM_AXIOMS.get(_n)
+    core.TERM_AXIOMS[_n] = (lambda app, _prev=_prev: (_prev(app) if _prev else []) + _nonrel(app))
+core.TERM_AXIOMS["sp.apply"] = lambda app: [z3.Implies(
+    z3.Or(*[app.children()[0] == core.name_lit(f) for f in FUNCNAMES if f != "abs"]),
+    z3.Not(core.uf("sp.is_Relational", S, z3.BoolSort())(app)))]
+_verify.GLOBAL_AXIOMS.append(lambda: [z3.Not(core.uf("sp.is_Relational", S, z3.BoolSort())(PI))])
+
+
+def _wf_shape(t):
+    ch = registry.field_term("Node", "children", t)
+    data = registry.field_term("Node", "data", t).t
+    n = z3.Length(ch.t)
+    lit = core.name_lit
+    fn = _text(ch.t[0])
+    return (z3.And(
+        z3.Implies(z3.Or(data == lit("expression"), data == lit("term")), z3.And(n >= 1, n % 2 == 1)),
+        z3.Implies(data == lit("factor"), n == 2),
+        z3.Implies(data == lit("power"), n == 2),
+        z3.Implies(z3.Or(data == lit("variable"), data == lit("scientific"), data == lit("constant")), n == 1),
+        z3.Implies(data == lit("func"), z3.And(n >= 2, z3.Or(*[fn == lit(f) for f in FUNCNAMES]))),
+    ))
+
+
+@registry.spec("arith_node")
+def _arith_node(ctx, st, tree):
+    data = registry.field_term("Node", "data", tree.t).t
+    lit = core.name_lit
+    return SV(TBool, z3.Or(*[data == lit(x) for x in ("expression", "term", "factor", "power", "variable", "scientific", "constant")]))
+
+# ---- ContinuousConditional ----------------------------------------------------------------------------
+registry.EXTERNALS["Sym.rel_op"] = lambda ctx, st, obj: SV(TName, core.uf("sp.rel_op", S, TName.sort())(obj.t))
+
+
+@registry.spec("rexp")
+def _rexp(ctx, st, a):
+    return SV(TReal, REXP(lift(a, TReal).t))
+
+
+contract(
+    T + "ContinuousConditional",
+    params={"cond": "Sym", "true_value": "Sym", "false_value": "Sym", "sigma": "Sym"}, ret="Sym", ghost={"env": "Env"},
+    where={"A": "den(cond.args[0], env)", "B": "den(cond.args[1], env)", "SG": "den(sigma, env)",
+           "TV": "den(true_value, env)", "FV": "den(false_value, env)"},
+    ensures={"sigmoid_blend": "implies(SG != 0, den(result, env) * (1 + rexp((A - B) / SG)) == "
+                              "ite('>' in cond.rel_op, TV * rexp((A - B) / SG) + FV, TV + FV * rexp((A - B) / SG)))"},
+    properties=("C01",),
+    note="the documented blend t*(1-H)+f*H with H = 1/(1+exp((a-b)/sigma)), multiplied through by (1+exp(..)) to stay polynomial",
+)
